@@ -232,14 +232,33 @@ func classify(err error) string {
 	return "other:" + strings.ReplaceAll(err.Error(), " ", "_")
 }
 
+// parseCalls: the blobs are handed to Add the way relic's callers hand them over (lib/fruit/machos: sub-slices of one
+// header buffer): slices of ONE arena with spare capacity behind them, laid out in reverse call order, so that whatever
+// Add writes behind a blob it was given lands in the bytes of another patch.  Add keeps the caller's slice; it must not
+// write through it.  arenaIntact reports whether the caller's memory still holds what the caller put there.
 func parseCalls(fields []string) []call {
 	n := int(hx.Atoi(fields[0]))
 	cs := make([]call, n)
+	raw := make([][]byte, n)
+	total := 0
 	for i := 0; i < n; i++ {
-		cs[i] = call{hx.Atoi(fields[1+3*i]), hx.Atoi(fields[2+3*i]), hx.MustUnHex(fields[3+3*i])}
+		raw[i] = hx.MustUnHex(fields[3+3*i])
+		total += len(raw[i])
 	}
+	arena := make([]byte, total+16)
+	pos := 0
+	for i := n - 1; i >= 0; i-- {
+		copy(arena[pos:], raw[i])
+		cs[i] = call{hx.Atoi(fields[1+3*i]), hx.Atoi(fields[2+3*i]), arena[pos : pos+len(raw[i])]}
+		pos += len(raw[i])
+	}
+	lastArena, lastArenaCopy = arena, append([]byte(nil), arena...)
 	return cs
 }
+
+var lastArena, lastArenaCopy []byte
+
+func arenaIntact() bool { return bytes.Equal(lastArena, lastArenaCopy) }
 
 func inode(path string) uint64 {
 	st, err := os.Lstat(path)
@@ -279,7 +298,11 @@ func Handle(f []string) string {
 			for _, c := range parseCalls(f[1:]) {
 				p.Add(c.off, c.old, c.blob)
 			}
-			return "ok " + hx.Hex(p.Dump())
+			d := p.Dump()
+			if !arenaIntact() {
+				return "ok " + hx.Hex(d) + " caller-buffer-changed"
+			}
+			return "ok " + hx.Hex(d)
 		case "load":
 			p, err := binpatch.Load(hx.MustUnHex(f[1]))
 			if err != nil {
@@ -343,6 +366,9 @@ func doApply(dir string, orig []byte, mode, via string, cs []call) string {
 		err = p.Apply(infile, outpath)
 	}
 	suffix := ""
+	if !arenaIntact() {
+		suffix += " caller-buffer-changed"
+	}
 	// no temporary files may remain, whatever happened
 	ents, _ := os.ReadDir(dir)
 	for _, e := range ents {
